@@ -36,9 +36,10 @@ def run(ctx):
     if ctx.replay:
         ba.replay_file(ctx, binary, "C07", ENV)
         return
-    ctx.tlc_check("ChunkStore.tla", "c07_exh_quick.cfg", timeout=ctx.q(7000, 14000))          # deep: 3 addresses, 5 steps
+    ctx.tlc_check("ChunkStore.tla", "c07_exh_quick.cfg", timeout=ctx.q(7000, 14000))          # 3 addresses, 7 DAGs, 4 steps
     if ctx.tier == "thorough":
-        ctx.tlc_check("ChunkStore.tla", "c07_exh_thorough.cfg", timeout=14000)                # wide: 4 addresses, 42 DAGs, journal
+        ctx.tlc_check("ChunkStore.tla", "c07_exh_deep.cfg", timeout=14000)                   # deep: the same, 5 steps
+        ctx.tlc_check("ChunkStore.tla", "c07_exh_thorough.cfg", timeout=14000)               # wide: 4 addresses, 42 DAGs, journal
     # directed search with the code's rule: behaviours whose last state has a persisted root with a missing descendant
     hazards, hres = ba.tlc_enumerate(ctx, "ChunkStore.tla", ctx.q("c07_hazard_quick.cfg", "c07_hazard_thorough.cfg"), timeout=ctx.q(7000, 14000))
     ctx.cov["hazard_behaviours_found_by_tlc"] = len(hazards)
